@@ -2586,7 +2586,17 @@ impl<'a> Model<'a> {
                                 .get_style_without_quote_prefix(new_style_index_spill)?;
                         }
 
-                        self.set_cell_with_string(sheet, r, c, "", new_style_index_spill)?;
+                        // The cell belongs to the array from now on: a formula that reads it
+                        // before the array has been evaluated has to evaluate the anchor first
+                        self.workbook.worksheet_mut(sheet)?.update_cell(
+                            r,
+                            c,
+                            Cell::SpillCell {
+                                s: new_style_index_spill,
+                                a: (row, column),
+                                v: SpillValue::Text(String::new()),
+                            },
+                        )?;
                     }
                 }
                 return Ok(());
